@@ -321,7 +321,7 @@ type c18L2State struct {
 type c18L2Sys struct {
 	st    *c18Stats
 	votes *c15Sys
-	sweep int // message letters of states at depth ≤ sweep are also run under every gas limit (-1: never)
+	sweep int      // message letters of states at depth ≤ sweep are also run under every gas limit (-1: never)
 	swept sync.Map // digest+letter -> *engine.Violation: the explorer re-executes shallow steps many times
 	twins map[*world.L2]*world.L2
 	mu    sync.Mutex
@@ -428,7 +428,6 @@ func (y *c18L2Sys) Letters(s *c18L2State) []engine.Letter {
 	}
 	return ls
 }
-
 
 // message builds the transaction message of a message letter against (w, ctx).
 func (y *c18L2Sys) message(op c18L2Op, w *world.L2, ctx sdk.Context) sdk.Msg {
